@@ -804,6 +804,23 @@ def _init_object(self, ex, st, fr, obj, args, kwargs):
         names = ["id", "name", "entity", "resistance"]
         for k, v in list(zip(names, args)) + list(kwargs.items()):
             st.set_inplace(obj, k, v)
+        # identity of the new item (what a mapping keyed by id stores) and the spec functions describing it
+        ident = tm.fresh("item", INT)
+        st.set_inplace(obj, "ident", VT(ident))
+        facts = [tm.le(0, ident)]
+        iid, res, ent = st.get(obj, "id"), st.get(obj, "resistance"), st.get(obj, "entity")
+        if isinstance(iid, VT) and iid.t.sort == STR:
+            facts.append(tm.eq(tm.app("item_id", STR, ident), iid.t))
+        if isinstance(res, VT) and res.t.sort == STR:
+            facts.append(tm.eq(tm.app("item_res", STR, ident), res.t))
+        rec = st.get(ent, "record") if isinstance(ent, VObj) else None
+        if isinstance(rec, VObj):
+            rid = st.get(rec, "id")
+            if isinstance(rid, VT) and rid.t.sort == STR:
+                facts.append(tm.eq(tm.app("item_recid", STR, ident), rid.t))
+            facts.append(tm.eq(tm.app("item_circ", BOOL, ident), tm.B(rec.kind == "CircularRecord")))
+            facts.append(tm.eq(tm.app("item_wraps", BOOL, ident), tm.TRUE))
+        st = st.assume(*facts)
         return [(st, "ok", obj)]
     return _prev_init_object(self, ex, st, fr, obj, args, kwargs)
 
@@ -1049,3 +1066,212 @@ def _custom_iter3(self, ex, st, fr, node, it, ordinal):
 
 
 MocloModels.custom_iter = _custom_iter3
+
+
+# ---------------------------------------------------------------------- embedded archives (D-TAR)
+# An embedded registry reads a tar archive shipped as package data.  The archive named by a resource is a constant
+# of the installed package: T = tar_listing(file), a sequence of members (integers); member e has a name tar_name(e)
+# and holds one GenBank record whose id is tar_recid(e) (name tar_recname(e)).
+M.ASSUMPTIONS["D-TAR"] = (
+    "pkg_resources.resource_stream(module, file) opens the package data file `file` (the same bytes at every call); "
+    "tarfile.open(fileobj=stream, mode 'r:gz' or transparent) reads the same member sequence T(file); "
+    "iter(tar.next, None) yields the members of T in order and stops after the last one (a member is never None); "
+    "tar.getmembers() is a list of the same members; member.name is the member's name; extractfile(member) + "
+    "io.TextIOWrapper give the text of a regular member; Bio.SeqIO.read(text, 'gb') returns the one record stored in it "
+    "(a new object at every call, equal fields) or raises ValueError; context managers only close what they opened")
+TARSEQ = tm.seq_sort(INT)
+MocloModels.TRANSPARENT_CTX = ("TarAbs",)
+
+
+def tar_listing(file_t):
+    return tm.app("tar_listing", TARSEQ, file_t)
+
+
+def tar_name(e):
+    return tm.app("tar_name", STR, e)
+
+
+def tar_recid(e):
+    return tm.app("tar_recid", STR, e)
+
+
+def m_resource_stream(ex, st, fr, args, kwargs):
+    ex.used_models.add("D-TAR")
+    if len(args) != 2 or not (isinstance(args[1], VT) and args[1].t.sort == STR):
+        raise Unsupported("resource_stream%r" % (args,))
+    o = VObj("ctx:transparent")
+    return [(st.set(o, "resource", args[1]), "ok", o)]
+
+
+def m_tarfile_open(ex, st, fr, args, kwargs):
+    ex.used_models.add("D-TAR")
+    rs = kwargs.get("fileobj")
+    mode = kwargs.get("mode")
+    if args or not isinstance(rs, VObj) or st.get(rs, "resource") is None or set(kwargs) - {"fileobj", "mode"}:
+        raise Unsupported("tarfile.open(%r, %r)" % (args, sorted(kwargs)))
+    if mode is not None and not (isinstance(mode, VT) and tm.is_const(mode.t) and tm.cval(mode.t) in ("r", "r:*", "r:gz")):
+        raise Unsupported("tarfile.open(mode=%r)" % (mode,))
+    o = VObj("TarAbs")
+    return [(st.set(o, "resource", st.get(rs, "resource")), "ok", o)]
+
+
+def _tar_members(ex, st, self):
+    ex.used_models.add("D-TAR")
+    ex.models.elem_kind = "TarEntry"
+    return VT(tar_listing(st.get(self, "resource").t), "list")
+
+
+def km_tar_next(ex, st, fr, self, args, kwargs):
+    raise Unsupported("tar.next() called directly (only iter(tar.next, None) is modelled)")
+
+
+def km_tar_getmembers(ex, st, fr, self, args, kwargs):
+    return [(st, "ok", _tar_members(ex, st, self))]
+
+
+def km_tar_extractfile(ex, st, fr, self, args, kwargs):
+    ex.used_models.add("D-TAR")
+    (entry,) = args
+    if not (isinstance(entry, VObj) and entry.kind == "TarEntry"):
+        raise Unsupported("extractfile(%r)" % (entry,))
+    o = VObj("ctx:transparent")
+    return [(st.set(o, "member", st.get(entry, "ident")), "ok", o)]
+
+
+def m_textiowrapper(ex, st, fr, args, kwargs):
+    if len(args) != 1 or kwargs or not isinstance(args[0], VObj) or st.get(args[0], "member") is None:
+        raise Unsupported("io.TextIOWrapper%r" % (args,))
+    return [(st, "ok", args[0])]
+
+
+M.KIND_METHODS[("TarAbs", "next")] = km_tar_next
+M.KIND_METHODS[("TarAbs", "getmembers")] = km_tar_getmembers
+M.KIND_METHODS[("TarAbs", "extractfile")] = km_tar_extractfile
+
+_prev_m_iter = M.m_iter
+
+
+def m_iter2(ex, st, fr, args, kwargs):
+    if len(args) == 2 and isinstance(args[0], VModel) and args[0].name == "TarAbs.next" and isinstance(args[1], VNone):
+        return [(st, "ok", _tar_members(ex, st, args[0].self_val))]
+    return _prev_m_iter(ex, st, fr, args, kwargs)
+
+
+def m_hash(ex, st, fr, args, kwargs):
+    """hash of a (class, str) tuple: a function of the class and of the text (D-HASH)"""
+    (v,) = args
+    if isinstance(v, VTuple) and len(v.items) == 2 and isinstance(v.items[0], VClass) and isinstance(v.items[1], VT) and v.items[1].t.sort == STR:
+        ex.used_models.add("D-HASH")
+        return [(st, "ok", VT(tm.app("py_hash:" + v.items[0].name, INT, v.items[1].t)))]
+    raise Unsupported("hash(%r)" % (v,))
+
+
+M.ASSUMPTIONS["D-HASH"] = "hash((C, s)) for a class C and a str s is a function of C and of the text of s"
+_prev_builtin_tar = MocloModels.builtin
+
+
+def _builtin_tar(self, name):
+    if name == "iter":
+        return VModel("iter", m_iter2)
+    if name == "hash":
+        return VModel("hash", m_hash)
+    return _prev_builtin_tar(self, name)
+
+
+MocloModels.builtin = _builtin_tar
+
+_prev_seqio_read = m_seqio_read
+
+
+def m_seqio_read2(ex, st, fr, args, kwargs):
+    handle = args[0]
+    if isinstance(handle, VObj) and st.get(handle, "member") is not None:
+        ex.used_models.add("D-TAR")
+        fmt = args[1] if len(args) > 1 else None
+        if not (isinstance(fmt, VT) and tm.is_const(fmt.t) and tm.cval(fmt.t) in ("gb", "genbank")):
+            raise Unsupported("SeqIO.read format %r" % (fmt,))
+        e = st.get(handle, "member").t
+        st = st.fork()
+        rec = ex.models.sym_record(st, "SeqRecord", "member%d" % next(tm._fresh), ann_keys=("topology",))
+        st.set_inplace(rec, "id", VT(tar_recid(e)))
+        st.set_inplace(rec, "name", VT(tm.app("tar_recname", STR, e)))
+        st.set_inplace(rec, "member", VT(e))
+        bad = tm.app("tar_unparsable", BOOL, e)
+        return ex.raise_(st.assume(bad), "ValueError") + [(st.assume(tm.not_(bad)), "ok", rec)]
+    return _prev_seqio_read(ex, st, fr, args, kwargs)
+
+
+_prev_from_elem_tar = MocloModels.from_elem
+
+
+def _from_elem_tar(self, ex, st, t):
+    if t.sort == INT and getattr(self, "elem_kind", None) == "TarEntry":
+        o = VObj("TarEntry")
+        st.set_inplace(o, "ident", VT(t))
+        st.set_inplace(o, "name", VT(tar_name(t)))
+        return o
+    return _prev_from_elem_tar(self, ex, st, t)
+
+
+MocloModels.from_elem = _from_elem_tar
+_prev_external_tar = MocloModels.external
+
+
+def _external_tar(self, base, attr):
+    name = "%s.%s" % (base, attr) if base else attr
+    table = {
+        "pkg_resources.resource_stream": VModel("pkg_resources.resource_stream", m_resource_stream),
+        "tarfile.open": VModel("tarfile.open", m_tarfile_open),
+        "io.TextIOWrapper": VModel("io.TextIOWrapper", m_textiowrapper),
+        "Bio.SeqIO.read": VModel("Bio.SeqIO.read", m_seqio_read2),
+    }
+    if name in table:
+        return table[name]
+    r = _prev_external_tar(self, base, attr)
+    if isinstance(r, VModule) and r.name == "Bio.SeqIO":
+        r.attrs["read"] = table["Bio.SeqIO.read"]
+    if isinstance(r, VModule) and r.name == "Bio" and "SeqIO" in r.attrs:
+        r.attrs["SeqIO"].attrs["read"] = table["Bio.SeqIO.read"]
+    return r
+
+
+MocloModels.external = _external_tar
+
+
+# dict with symbolic str keys: item store (the array model of the dict; values by identity)
+def _store_item(self, ex, st, fr, o, k, v):
+    if isinstance(o, VDict) and isinstance(k, VT) and k.t.sort == STR and (st.get(o, "arr") is not None or not st.get(o, "items")):
+        ex.used_models.add("D-DICT")
+        arr = map_arr(st, o)
+        vt = ex.models.as_elem(ex, st, v, INT)
+        return [(st.set(o, "arr", VT(tm.store(arr, k.t, vt))), "ok", None)]
+    return None
+
+
+MocloModels.store_item = _store_item
+
+
+# comprehension over a symbolic sequence: pointwise map (the element expression must be pure, total and a string)
+_prev_comprehension = MocloModels.comprehension
+
+
+def _comprehension_sym(self, ex, st, fr, node, gen, it, what):
+    if isinstance(it, VT) and it.t.sort == TARSEQ and what in ("gen", "list") and getattr(self, "elem_kind", None) == "TarEntry":
+        j = tm.V("j_map", INT)
+        s0 = st.assume(tm.le(0, j), tm.lt(j, tm.seqlen(it.t))).fork()
+        elem = self.from_elem(ex, s0, tm.seqnth(it.t, j))
+        outs = [(s2, t2, v2) for (s1, _, _) in ex.assign(gen.target, elem, s0, fr) for (s2, t2, v2) in ex.eval(node.elt, s1, fr)]
+        if len(outs) != 1 or outs[0][1] != "ok" or not (isinstance(outs[0][2], VT) and outs[0][2].t.sort == STR):
+            raise Unsupported("map over a symbolic sequence with an element expression that is not a total string expression")
+        R = tm.fresh("mapped", tm.seq_sort(STR))
+        st2 = st.assume(tm.eq(tm.seqlen(R), tm.seqlen(it.t)),
+                        tm.forall_range(j, 0, tm.seqlen(it.t), tm.eq(tm.seqnth(R, j), outs[0][2].t)))
+        st2.ghost["map_source"] = (R, it.t)
+        return [(st2, "ok", VT(R, "list"))]
+    return _prev_comprehension(self, ex, st, fr, node, gen, it, what)
+
+
+MocloModels.comprehension = _comprehension_sym
+
+
+m_seqio_read = m_seqio_read2      # the tables built by _external look the name up when they are built
